@@ -211,10 +211,11 @@ func TestC09(t *testing.T) {
 		wrappedVersions(t, r, dir)
 		sparseBodies(t, r, dir)
 		failedActivate(t, r, dir)
+		pollsDuringFailingActivations(t, r, dir)
 		differentVAtOnce(t, r, dir)
 		auditFailureIsNotNotModified(t, r, dir)
 	}
-	r.Require("sparse_request_bodies", "conditional_gets_after_a_failed_activation", "out_of_range_versions", "overlapping_polls_with_different_v", "conditional_gets_with_failing_audit", "hand_written_file_entries", "post_quiescence_conditional_gets", "concurrent_conditional_gets", "histories", "db_notchanged", "db_value", "http_notchanged", "http_value", "file_notchanged", "file_value", "denied_checks",
+	r.Require("polls_during_failing_activations", "sparse_request_bodies", "conditional_gets_after_a_failed_activation", "out_of_range_versions", "overlapping_polls_with_different_v", "conditional_gets_with_failing_audit", "hand_written_file_entries", "post_quiescence_conditional_gets", "concurrent_conditional_gets", "histories", "db_notchanged", "db_value", "http_notchanged", "http_value", "file_notchanged", "file_value", "denied_checks",
 		"shape_reactivated_older_version", "shape_v_existing_inactive", "shape_v_names_deleted_version", "shape_v_beyond_latest")
 	r.Rule("seeded histories of 15-30 put/activate/delete-version/delete steps over 2 names; after every step conditional gets with V in {0, 1, active, every version number up to latest (existing and deleted), latest+1, 2^32-1} on both names and an absent one, through db.GetConditional, HTTP handler + setec.Client, and FileClient on a file generated from the model; plus a caller without get permission. Distinct = (front end, class of V, model outcome)")
 }
@@ -724,4 +725,65 @@ func failedActivate(t *testing.T, r *evid.Run, dir string) {
 		}
 	}
 	r.Distinct("conditional gets after failed activations")
+}
+
+// pollsDuringFailingActivations: while the file system is away every Activate fails, so version 1 stays the
+// active one throughout; clients holding version 1 poll all the while: each answer is "not changed". (A value
+// delivered now could only be a version that never became active.)
+func pollsDuringFailingActivations(t *testing.T, r *evid.Run, dir string) {
+	os.MkdirAll(filepath.Join(dir, "pollfail"), 0o700)
+	path := filepath.Join(dir, "pollfail", "db")
+	d, err := realdb.Open(path, realdb.DummyKey("c09pf"))
+	if err != nil {
+		t.Fatal(err)
+	}
+	su := realdb.Super()
+	for v := 1; v <= 3; v++ {
+		d.Put(su, "polled", []byte(fmt.Sprintf("bytes-of-%d", v)))
+	}
+	d.Activate(su, "polled", 1)
+	var stop atomic.Bool
+	var wg sync.WaitGroup
+	var bad atomic.Int32
+	for p := 0; p < 4; p++ {
+		wg.Add(1)
+		go func(p int) {
+			defer wg.Done()
+			for !stop.Load() {
+				var sv *api.SecretValue
+				var err error
+				if p%2 == 0 {
+					sv, err = d.GetConditional(su, "polled", 1)
+				} else {
+					sv, err = d.Get(su, "polled")
+				}
+				r.Count("polls_during_failing_activations", 1)
+				c := realdb.Classify(err)
+				ok := (p%2 == 0 && c == refmodel.NotChanged) || (p%2 == 1 && c == refmodel.OK && sv.Version == 1)
+				if !ok && bad.Add(1) == 1 {
+					key := "db-value-although-unchanged"
+					if p%2 == 1 {
+						key = "db-get-delivers-inactive-version"
+					}
+					r.Violation(key, -1, fmt.Sprintf("every Activate of this period fails (the database's directory is away) so version 1 is active throughout; a poller (conditional=%t, V=1) was answered %s %v", p%2 == 0, c, sv), nil)
+				}
+			}
+		}(p)
+	}
+	nfail := 0
+	realdb.BreakDir(path, func() {
+		for i, n := 0, r.N(40, 400); i < n; i++ {
+			if err := d.Activate(su, "polled", api.SecretVersion(2+i%2)); err == nil {
+				r.Violation("activate-succeeds-without-a-file-system", -1, "Activate reported success while the database's directory was moved away", nil)
+				break
+			}
+			nfail++
+			runtime.Gosched()
+		}
+	})
+	stop.Store(true)
+	wg.Wait()
+	r.Eval(1)
+	r.Count("failed_activations_under_polls", nfail)
+	r.Distinct("polls during failing activations")
 }
